@@ -1,0 +1,122 @@
+//go:build verif
+
+// Contracts for the verification machinery in /verif (engine: govc). Comments only.
+package reconciler
+
+// The statedb API as seen from the reconciler: calls into it do not touch the reconciler's
+// own data structures (assumed frame for the interface methods used here).
+//@ package statedb
+//@ func RWTable.*
+//@   trusted
+//@   modifies H_statedb_* H_part_* H_lpm_* E_p_statedb_* E_p_part_* E_p_lpm_* GH_* CH_closed MD_* MV_* MN_* B_*
+//@ func WriteTxn.*
+//@   trusted
+//@   modifies H_statedb_* H_part_* H_lpm_* E_p_statedb_* E_p_part_* E_p_lpm_* GH_* CH_closed MD_* MV_* MN_* B_*
+//@ func (*DB).WriteTxn
+//@   trusted
+//@   modifies H_statedb_* H_part_* H_lpm_* E_p_statedb_* E_p_part_* E_p_lpm_* GH_* CH_closed MD_* MV_* MN_* B_*
+//@ func (*DB).ReadTxn
+//@   trusted
+//@   pure
+//@ package reconciler
+
+// ---------------------------------------------------------------------------
+// Status write-back (C15)
+
+// The status kinds are package variables that are never assigned after initialisation.
+//@ constglobal StatusKindUnset StatusKindPending StatusKindRefreshing StatusKindDone StatusKindError
+//@ func Status.IsPendingOrRefreshing
+//@   property C15
+//@   pure
+//@   ensures result <==> (s.Kind == StatusKindPending || s.Kind == StatusKindRefreshing)
+
+// commitStatus: the only table writes are CompareAndSwap on the reconciled revision and -
+// only when the object still carries the same pending identifier - the Insert fallback; a
+// retry is queued only when the operation failed AND its status was actually written.
+//@ func (*incremental).commitStatus
+//@   property C15
+//@   flag nosafety
+//@   maypanic
+//@   requires incr != nil && incr.retries != nil && incr.retries.queue != nil && incr.retries.revQueue != nil && incr.retries.queue != incr.retries.revQueue
+//@   flag dyncall.GetObjectStatus=pure
+//@   flag dyncall.SetObjectStatus=pure
+//@   flag dyncall.CloneObject=pure
+//@   atcall RWTable.Insert@1 requires @fallback-needs-same-pending exists && *currentStatus.Kind == StatusKindPending && currentStatus.ID == result.id
+//@   atcall (*retries).Add@1 requires @retry-only-after-status-write result.err != nil && err == nil
+
+// single / batch: an object that is neither deleted nor pending/refreshing is skipped
+// without being passed to the operations (it is handled by the retry queue only).
+//@ func (*incremental).single$1
+//@   property C15
+//@   flag nosafety
+//@   maypanic
+//@   flag dyncall.GetObjectStatus=pure
+//@   atcall (*incremental).processSingle@1 requires @only-pending-or-deleted change.Deleted || *status.Kind == StatusKindPending || *status.Kind == StatusKindRefreshing
+
+// ---------------------------------------------------------------------------
+// Retry pacing and progress (C16)
+
+// processRetries never attempts an item before its retry time.
+//@ package time
+//@ package reconciler
+//@ func (*incremental).processRetries
+//@   property C16
+//@   flag nosafety
+//@   maypanic
+//@   atcall (*incremental).processSingle@1 requires @not-before-retry-time ok && !tAfter(*item.retryAt, *now)
+
+// Duration: min * 2^attempt, capped by max (floats treated as reals; math.Pow(2,x) is the
+// uninterpreted pow2r with pow2r(x) >= 1 for x >= 0 and monotone).
+//@ func (*exponentialBackoff).Duration
+//@   property C16
+//@   flag nosafety
+//@   requires e != nil
+//@   ensures @bounds 0 < e.min && e.min <= e.max && attempt >= 0 ==> e.min <= result && result <= e.max
+//@   ensures @value 0 < e.min && e.min <= e.max && attempt >= 0 ==> result == (real(e.min) * pow2r(real(attempt)) > real(e.max) ? e.max : trunc(real(e.min) * pow2r(real(attempt))))
+
+// The two heaps of the retry queue: every Add repairs each of them exactly once (Fix when
+// the item is already a member, Push otherwise) after the keys of the item were changed.
+//@ ghostcomp GH_heapOps int
+//@ func (*retryPrioQueue).Fix
+//@   trusted
+//@   modifies GH_heapOps H_reconciler_retryPrioQueue_* H_reconciler_retryItem_index H_reconciler_retryItem_revIndex E_p_reconciler_retryItem
+//@   ensures GH_heapOps[hq] == old(GH_heapOps)[hq] + 1 && unchangedExcept(GH_heapOps, hq)
+//@ func (*retryPrioQueue).PushItem
+//@   trusted
+//@   modifies GH_heapOps H_reconciler_retryPrioQueue_* H_reconciler_retryItem_index H_reconciler_retryItem_revIndex E_p_reconciler_retryItem
+//@   ensures GH_heapOps[hq] == old(GH_heapOps)[hq] + 1 && unchangedExcept(GH_heapOps, hq)
+//@ func (*retryPrioQueue).PopItem
+//@   trusted
+//@   modifies GH_heapOps H_reconciler_retryPrioQueue_* H_reconciler_retryItem_index H_reconciler_retryItem_revIndex E_p_reconciler_retryItem
+//@ func (*retryPrioQueue).Remove
+//@   trusted
+//@   modifies GH_heapOps H_reconciler_retryPrioQueue_* H_reconciler_retryItem_index H_reconciler_retryItem_revIndex E_p_reconciler_retryItem
+//@ func (*retries).Pop
+//@   trusted
+//@   modifies GH_heapOps H_reconciler_retryPrioQueue_* H_reconciler_retryItem_index H_reconciler_retryItem_revIndex E_p_reconciler_retryItem H_reconciler_retries_waitTimer H_reconciler_retries_waitChan CH_closed
+//@ func (*retries).resetTimer
+//@   trusted
+//@   modifies H_reconciler_retries_waitTimer H_reconciler_retries_waitChan CH_closed
+
+//@ func (*retries).Add
+//@   property C16
+//@   flag nosafety
+//@   flag dyncall.objectToKey=pure
+//@   requires rq != nil && rq.queue != nil && rq.revQueue != nil && rq.queue != rq.revQueue
+//@   ensures @rev-heap-repaired GH_heapOps[rq.revQueue] == old(GH_heapOps)[rq.revQueue] + 1
+//@   ensures @time-heap-repaired GH_heapOps[rq.queue] == old(GH_heapOps)[rq.queue] + 1
+
+// progressTracker: the reconciled revision never decreases, and wait() returns without
+// error only once it has reached the requested revision.
+//@ func (*progressTracker).update
+//@   property C16
+//@   flag nosafety
+//@   requires p != nil && !GH_held[addr(p.mu)]
+//@   ensures @monotone p.revision >= old(p.revision) && p.revision >= rev
+//@   ensures @unlocked !GH_held[addr(p.mu)]
+//@ func (*progressTracker).wait
+//@   property C16
+//@   flag nosafety
+//@   requires p != nil && !GH_held[addr(p.mu)]
+//@   ensures @reached result2 == nil ==> result0 >= rev
+//@   loop 1 invariant !GH_held[addr(p.mu)]
